@@ -15,8 +15,11 @@ defines as xyz coordinate system. E.g.
 for an image with ijk-matrix indexing, the first
 component corresponds to the z axis with
 reversed indexing, the second component corresponds
-to the y-axis, and the third component corresponds to
-the x-axis.
+to the x-axis, and the third component corresponds to
+the y-axis with reversed indexing (cf. interpret_indexing,
+which is used by the coordinate system).
+
+In 1d: The single matrix index i corresponds to the x-axis.
 
 """
 
@@ -39,22 +42,25 @@ def to_matrix_indexing(axis: Union[str, int], indexing: str) -> str:
         str: converted axis in matrix indexing sense.
 
     """
-    assert indexing in "xy", "xyz"
+    assert indexing in ["x", "xy", "xyz"]
 
     # Convert numeric axis description
     if isinstance(axis, int):
         axis = "xyz"[axis]
 
-    if indexing == "xy":
+    if indexing == "x":
+        if axis == "x":
+            return "i"
+    elif indexing == "xy":
         if axis == "x":
             return "j"
         elif axis == "y":
             return "i"
     elif indexing == "xyz":
         if axis == "x":
-            return "k"
-        elif axis == "y":
             return "j"
+        elif axis == "y":
+            return "k"
         elif axis == "z":
             return "i"
 
@@ -75,7 +81,10 @@ def to_cartesian_indexing(axis: Union[str, int], indexing: str) -> str:
     if isinstance(axis, int):
         axis = "ijk"[axis]
 
-    if indexing == "ij":
+    if indexing == "i":
+        if axis == "i":
+            return "x"
+    elif indexing == "ij":
         if axis == "i":
             return "y"
         elif axis == "j":
@@ -84,9 +93,9 @@ def to_cartesian_indexing(axis: Union[str, int], indexing: str) -> str:
         if axis == "i":
             return "z"
         elif axis == "j":
-            return "y"
-        elif axis == "k":
             return "x"
+        elif axis == "k":
+            return "y"
 
     raise ValueError
 
